@@ -191,6 +191,10 @@ def tables_unit(u, res):
         L = np.array(LATTICES[lid], dtype=float)
         pos = np.vstack([rng.uniform(0, 1, (4, 3)), [[0, 0, 0], [0.5, 0.5, 0.5], [0.5, 0, 0], [0.5, 0.5, 0], [0.9, 0.5, 0.1]]])
         cases.append((lid, L, pos, pos[:3]))
+        # the same ties, but only to 7 decimals (coordinates read from a file, relaxed structures): images whose lengths differ by
+        # far less than the symmetry tolerance still count as equidistant
+        pert = pos.copy(); pert[4:] += np.array([[3e-8, -2e-8, 1e-8], [-2e-8, 3e-8, 2e-8], [1e-8, 2e-8, -3e-8], [2e-8, -1e-8, 3e-8], [0, 0, 0]])
+        cases.append((lid + "~", L, pert, pert[4:7]))
     nbad = 0
     for lid, L, spos, ppos in cases:
         dense, dm = get_smallest_vectors(L, spos, ppos, store_dense_svecs=True)
@@ -210,8 +214,9 @@ def tables_unit(u, res):
                     ok = False; why = "pair (%d,%d): stored %d vectors, oracle %d (min length %.5f)" % (i, j, len(got), len(want), mn)
         d2, m2 = sparse_to_dense_svecs(sparse, sm)
         s3, m3 = dense_to_sparse_svecs(dense, dm)
-        if not (np.allclose(d2, dense) and (m2 == dm).all() and (m3 == sm).all()):
-            ok = False; why = "dense/sparse conversion mismatch"
+        if np.shape(d2) != np.shape(dense) or np.shape(m2) != np.shape(dm) or np.shape(m3) != np.shape(sm) or \
+                not (np.allclose(d2, dense) and (m2 == dm).all() and (m3 == sm).all()):
+            ok = False; why = (why + "; " if why else "") + "dense and sparse tables describe different sets (%d vs %d vectors in total)" % (len(dense), len(d2))
         res.queries.append({"name": "shortest-vector tables == brute-force minimum images |n|<=3 [%s] [ground fact]" % lid, "verdict": "unsat" if ok else "sat", "seconds": 0.0, "nvars": 0, "nontrivial": False, "hash": "ground"})
         if not ok:
             res.violations.append({"key": "%s:tables:%s" % (PID, lid), "what": why, "replay": {"lattice": lid}})
